@@ -283,6 +283,23 @@ theorem one_faulty_cannot_block (c : Crypto G) (env : Env) (hsrc : FromSource en
         exact ⟨p.1, p.2, hw, hpk⟩
   exact ⟨hfinished.ending, hfinished.gen, sigOk_groupSig c env sh gs hl _, sigOk_groupSig c env sh gs hl _⟩
 
+/-- **byzantine_cannot_cause_error** (safety form of clause 3): as long as the block is not on the
+chain, no sequence of packets whatsoever — and no stored early messages — makes the party end with an
+error: it keeps collecting or ends `done`. (The only error ending of the signing round is "block already
+existed".) -/
+theorem byzantine_cannot_cause_error (c : Crypto G) (env : Env) (hsrc : FromSource env)
+    (hex : env.blockExists = false) (hn : 0 < env.groupSize)
+    (sh : Id → Data → G) (gs : Data → G) (hl : Lawful c env sh gs)
+    (future : List (VMsg G)) (ws : List (Wire G)) :
+    (Proc.run c env (Proc.init c env future) ws).ending ≠ some false := by
+  have hb := fromSource_binds hsrc
+  have h := run_tri c env hb hex sh gs hl (future.map (·.mid)) ws _
+    (init_state c env hb hex (groupK_pos hn) sh gs hl future)
+  rcases h with h | h | h
+  · rw [h.ending]; simp
+  · rw [h.ending]; simp
+  · rw [h.ending]; simp
+
 /-- The same statement for the handler that does not bind the signed hash to the block. -/
 def FullStatementLivenessUnbound : Prop :=
   ∀ (c : Crypto Sym) (env : Env), env.bindsHash = false → env.blockExists = false → 0 < env.groupSize →
